@@ -150,8 +150,8 @@ def run(model, tier="quick"):
     formula_check(res, model, "SqueethMarket.get_market_balance", REF_SQUEETH_BALANCE,
                   "Squeeth: effective collateral (incl. the lent LP) at the ETH price - short at the oSQTH mark",
                   opaque=["get_twap_price", "get_norm_factor", "_get_effective_collateral_in_eth", "osqth_balance"])
-    formula_check(res, model, "DeribitOptionMarket.get_market_balance", C15.REF_BALANCE,
-                  "Deribit: cash + options at mark; current cash also on closed bars", opaque=["round_decimal", "_is_open"])
+    effects_check(res, model, "DeribitOptionMarket.get_market_balance", C15.REF_BALANCE,
+                  "Deribit: cash + options at mark; current cash also on closed bars", [], opaque=["round_decimal", "_is_open"])
     formula_check(res, model, "GmxMarket.get_market_balance", C17.REF_V1_BALANCE, "GMX v1: shares*price + rewards*price")
     formula_check(res, model, "GmxV2Market.get_market_balance", C17.REF_V2_BALANCE, "GMX v2: shares * pool value / supply",
                   opaque=["getTokenAmountsFromGM"])
@@ -172,7 +172,7 @@ def run(model, tier="quick"):
     # a stale memo makes the reported value differ from the bar's valuation: Aave's caches are covered by the typestate rule
     from ..rules.cache import run_cache
     n_writers, caches = run_cache(model, res, "AaveV3Market", "C01")
-    res.floor("aave_cache_writer_methods", n_writers, 9)
+    res.floor("aave_cache_writer_methods", n_writers, 6)
     res.floor("obligations", len(res.obligations), 17)
     res.assumptions = ["valuation inputs (prices, marks, pool value) come from the bar's data (not validated)"]
     res.not_decided = ["that the valuation INPUTS are right", "Aave's 1e-4 quantisation as a number"]
